@@ -26,6 +26,8 @@ type globalInfo struct {
 	ambiguous bool
 	tableName string
 	elemBool bool
+	sliceLit []*big.Int // []byte{...} literal: element values
+	isSliceLit bool
 }
 
 type globalIndex struct {
@@ -148,6 +150,9 @@ func buildGlobalIndex(P *Program) *globalIndex {
 							info.ambiguous = true
 						}
 						info.scalar = constBig(c)
+					} else if lit, ok := sliceLiteral(st.Val); ok && isStraightLine(init, b) && !info.isSliceLit {
+						info.sliceLit = lit
+						info.isSliceLit = true
 					} else {
 						info.ambiguous = true
 					}
@@ -245,6 +250,53 @@ func isStraightLine(fn *ssa.Function, b *ssa.BasicBlock) bool {
 	return false
 }
 
+// sliceLiteral recognises v = slice (new [N]byte)[:] whose elements are set by constant stores.
+func sliceLiteral(v ssa.Value) ([]*big.Int, bool) {
+	sl, ok := v.(*ssa.Slice)
+	if !ok || sl.Low != nil || sl.High != nil || sl.Max != nil {
+		return nil, false
+	}
+	al, ok := sl.X.(*ssa.Alloc)
+	if !ok {
+		return nil, false
+	}
+	arr, ok := al.Type().(*types.Pointer).Elem().Underlying().(*types.Array)
+	if !ok || sizeOf(arr.Elem()) != 1 {
+		return nil, false
+	}
+	out := make([]*big.Int, arr.Len())
+	for i := range out {
+		out[i] = big.NewInt(0)
+	}
+	for _, r := range *al.Referrers() {
+		switch u := r.(type) {
+		case *ssa.Slice, *ssa.DebugRef:
+		case *ssa.IndexAddr:
+			ic, ok := u.Index.(*ssa.Const)
+			if !ok {
+				return nil, false
+			}
+			for _, rr := range *u.Referrers() {
+				st, ok := rr.(*ssa.Store)
+				if !ok || st.Addr != u {
+					if _, isDbg := rr.(*ssa.DebugRef); isDbg {
+						continue
+					}
+					return nil, false
+				}
+				c, ok := st.Val.(*ssa.Const)
+				if !ok {
+					return nil, false
+				}
+				out[ic.Int64()] = constBig(c)
+			}
+		default:
+			return nil, false
+		}
+	}
+	return out, true
+}
+
 func isInitFunc(fn *ssa.Function) bool {
 	if fn.Signature.Recv() != nil {
 		return false
@@ -323,12 +375,42 @@ func (vc *VC) globalLoad(st *State, p VPtr, t types.Type, idx *Term) (Value, boo
 	if over, ok := st.cells[name+"@bind"]; ok && p.Off == 0 && p.Dyn == nil {
 		return over, true
 	}
+	if info.readOnly && !info.ambiguous && info.isSliceLit && p.Off == 0 && p.Dyn == nil && idx == nil {
+		ptr := B.Var(name+".ptr", SInt)
+		n := int64(len(info.sliceLit))
+		vc.fact(B.And(B.Lt(B.Int(0), ptr), B.Le(B.Add(ptr, B.Int(n)), B.Big(maxAddr))))
+		M0 := vc.epochVar(0, "M")
+		for i, v := range info.sliceLit {
+			vc.fact(B.Eq(B.Select(M0, B.Add(ptr, B.Int(int64(i)))), B.Big(v)))
+		}
+		vc.note("assumed: the backing array of read-only slice literal %s is never written (contents stated on the entry byte heap)", strings.TrimPrefix(name, "G_"))
+		sv := VSlice{ptr, B.Int(n), B.Int(n)}
+		vc.regions = append(vc.regions, Region{Base: ptr, Size: B.Int(n), What: "global slice literal"})
+		return sv, true
+	}
 	if info.readOnly && !info.ambiguous {
 		if info.table != nil && idx != nil {
 			if info.tableName == "" || vc.B.funcs[info.tableName] == nil {
 				info.tableName = B.tableFun(strings.TrimPrefix(name, "G_"), info.table, info.elemBool)
 			}
-			return VT{B.App(info.tableName, idx)}, true
+			v := B.App(info.tableName, idx)
+			if !idx.IsConst() && vc.hasTableLemma(info) {
+				// the lemma (proved on the real table) stands in for the 100-way definition
+				on := sanitize("tblo_" + strings.TrimPrefix(name, "G_"))
+				ret := SInt
+				if info.elemBool {
+					ret = SBool
+				}
+				B.DefineFun(on, []Sort{SInt}, ret, "", nil)
+				v = B.App(on, idx)
+				if !info.elemBool {
+					if arr, ok := info.g.Type().(*types.Pointer).Elem().Underlying().(*types.Array); ok {
+						vc.rangeFact(v, arr.Elem())
+					}
+				}
+			}
+			vc.useTableLemmas(info, idx, v)
+			return VT{v}, true
 		}
 		if info.ptrElems != nil && idx != nil {
 			if idx.IsConst() {
@@ -437,4 +519,99 @@ func (vc *VC) globalStore(st *State, p VPtr, t types.Type, v Value) bool {
 		vc.heapSet(st, k, vc.B.Store(vc.heapGet(st, k), vc.B.Int(0), terms[i]))
 	}
 	return true
+}
+
+func (vc *VC) hasTableLemma(info *globalInfo) bool {
+	if vc.CS == nil {
+		return false
+	}
+	pkg := pkgShort(info.g.Pkg.Pkg)
+	for _, tl := range vc.CS.TableLemmas {
+		if tl.Table == info.g.Name() && tl.Pkg == pkg {
+			return true
+		}
+	}
+	return false
+}
+
+// useTableLemmas instantiates the table lemmas declared for this global at a load.
+func (vc *VC) useTableLemmas(info *globalInfo, idx, v *Term) {
+	if vc.CS == nil || idx.IsConst() || idx.bound {
+		return
+	}
+	pkg := pkgShort(info.g.Pkg.Pkg)
+	for _, tl := range vc.CS.TableLemmas {
+		if tl.Table != info.g.Name() || tl.Pkg != pkg {
+			continue
+		}
+		f := &Frame{vc: vc, fn: vc.fn, names: map[string]CV{}}
+		ctx := &EvalCtx{f: f, names: map[string]CV{tl.Idx: {VT{idx}, nil}, tl.Val: {VT{v}, nil}}, bound: map[string]*Term{}, st: &State{pc: vc.B.True(), heap: map[string]*Term{}, cells: map[string]Value{}}}
+		g, err := ctx.evalBoolSafe(tl.E)
+		if err != nil {
+			vc.note("table lemma %s cannot be instantiated: %v", tl.Table, err)
+			continue
+		}
+		// the lemma was proved for the entries of the table only
+		B := vc.B
+		vc.fact(B.Implies(B.And(B.Le(B.Int(0), idx), B.Lt(idx, B.Int(int64(len(info.table))))), g))
+	}
+}
+
+// checkTableLemmas proves each table lemma by evaluating it on every entry of the
+// table as extracted from the current source.
+func (e *Engine) checkTableLemmas(prop string) []*Obligation {
+	var out []*Obligation
+	for _, tl := range e.CS.TableLemmas {
+		has := len(tl.Props) == 0
+		for _, p := range tl.Props {
+			if p == prop {
+				has = true
+			}
+		}
+		if !has {
+			continue
+		}
+		name := tl.Pkg + "." + tl.Table + "/tablelemma"
+		o := &Obligation{Name: name, Kind: "tablelemma", Func: tl.Pkg + "." + tl.Table, Text: "for every entry: " + tl.Text, Pos: tl.Pos}
+		sp := e.P.ByPkg[tl.Pkg]
+		var info *globalInfo
+		if sp != nil {
+			if g, ok := sp.Members[tl.Table].(*ssa.Global); ok {
+				info = theGlobals.info[g]
+			}
+		}
+		o.Res.Solver = "evaluation"
+		if info == nil || info.table == nil || !info.readOnly || info.ambiguous {
+			o.Res.Verdict = "error"
+			o.Res.Output = "table is not a read-only constant array in the current source"
+			out = append(out, o)
+			continue
+		}
+		vc := e.newVC(nil, nil, prop)
+		B := vc.B
+		o.vc = vc
+		o.Res.Verdict = "unsat"
+		for i, val := range info.table {
+			f := &Frame{vc: vc, names: map[string]CV{}}
+			v := B.Big(val)
+			ctx := &EvalCtx{f: f, names: map[string]CV{tl.Idx: {VT{B.Int(int64(i))}, nil}, tl.Val: {VT{v}, nil}}, bound: map[string]*Term{}, st: &State{pc: B.True(), heap: map[string]*Term{}, cells: map[string]Value{}}}
+			if info.elemBool {
+				ctx.names[tl.Val] = CV{VT{B.Bool(val.Sign() != 0)}, nil}
+			}
+			g, err := ctx.evalBoolSafe(tl.E)
+			if err != nil {
+				o.Res.Verdict = "error"
+				o.Res.Output = err.Error()
+				break
+			}
+			if !g.IsTrue() {
+				o.Res.Verdict = "sat"
+				o.Res.Output = fmt.Sprintf("entry %d (value %s) violates the lemma", i, val)
+				o.Res.Model = map[string]string{"index": fmt.Sprint(i), "value": val.String()}
+				break
+			}
+		}
+		out = append(out, o)
+	}
+	return out
 }
